@@ -595,4 +595,118 @@ theorem graph_reserialise (o : L1) (hwf : GraphWF o) : spaceToDict (rp1 o) = spa
     rw [e, edge_reserialise us _ ⟨us', i, j, surf, dist, rfl, hus', h1', h2', h3', h4'⟩]
     rfl
 
+/-! ## system: network + space (grid or graph) + explicit state and chemostat map -/
+
+abbrev rp2 : L2 → L2 := reparseObj rp1
+
+def systemObj (us : Sys) (net sp : L1) (state : UArr) (chem : List Int) : L2 :=
+  [("units_system", .sys us), ("network", .child net), ("space", .child sp), ("state", .arr state), ("chemostats", .ints chem)]
+
+def SpaceWF (sp : L1) : Prop := GridWF sp ∨ GraphWF sp
+
+def SystemWF (o : L2) : Prop :=
+  ∃ us net sp state chem, o = systemObj us net sp state chem ∧ us.valid = true ∧ NetworkWF net ∧ SpaceWF sp ∧
+    state.u.sys.valid = true ∧ state.u.dim = Dim.quantity ∧ (∀ e ∈ cellEnvsOf sp, e < (nEnvOf net : Int))
+
+theorem systemFields_eq : systemFields =
+    [⟨"network", "network", .childOrPath "network", none⟩, ⟨"space", "space", .childOrPath "space", none⟩,
+     ⟨"state", "state", .uarr Dim.quantity, some .null⟩, ⟨"chemostats", "chemostats", .intsOrPath, some .null⟩] := by rfl
+
+theorem space_roundtrip (parent : Sys) (base : Option String) (fs : FS) (sp : L1) (h : SpaceWF sp) :
+    spaceFromDict parent base fs (spaceToDict sp) = .ok (rp1 sp) :=
+  h.elim (grid_roundtrip parent base fs sp) (graph_roundtrip parent base fs sp)
+
+theorem space_reserialise (sp : L1) (h : SpaceWF sp) : spaceToDict (rp1 sp) = spaceToDict sp :=
+  h.elim (grid_reserialise sp) (graph_reserialise sp)
+
+theorem writeL1_network (n : L1) (h : NetworkWF n) : writeL1 n = networkToDict n := by
+  obtain ⟨_, _, _, _, rfl, _⟩ := h; rfl
+
+theorem writeL1_space (sp : L1) (h : SpaceWF sp) : writeL1 sp = spaceToDict sp := by
+  rcases h with ⟨_, _, _, _, _, _, _, _, _, rfl, _⟩ | ⟨_, _, _, rfl, _⟩ <;> rfl
+
+theorem spaceToDict_obj (sp : L1) (h : SpaceWF sp) : ∃ kv, spaceToDict sp = .obj kv := by
+  rcases h with ⟨_, _, _, _, _, _, _, _, _, rfl, _⟩ | ⟨_, _, _, rfl, _⟩
+  · exact ⟨_, toDictG_eq _ _ _ _ _⟩
+  · exact ⟨_, toDictG_eq _ _ _ _ _⟩
+
+theorem readKind_childOrPath_obj {χ} (c : Ctx χ) (d : KV) (tag : String) (kv : KV) :
+    readKind c d (.childOrPath tag) (.obj kv) = (c.readChild tag c.us c.base (.obj kv)).map .child := rfl
+
+theorem level1Child_network (fs : FS) (us : Sys) (b : Option String) (j : Json) :
+    level1Child fs "network" us b j = networkFromDict us b fs j := rfl
+theorem level1Child_space (fs : FS) (us : Sys) (b : Option String) (j : Json) :
+    level1Child fs "space" us b j = spaceFromDict us b fs j := rfl
+
+theorem systemFromDictRaw_present (parent : Sys) (base : Option String) (fs : FS) (kv kvs : KV)
+    (hpk : processKeys DictKeys.system.aliases kv = .ok kv) (hl : kv.lookup "space" = some (.obj kvs)) :
+    systemFromDictRaw parent base fs (.obj kv) =
+      fromDictG DictKeys.system systemFields parent base fs (level1Child fs) (.obj kv) := by
+  unfold systemFromDictRaw
+  simp only [hpk, hl]
+  rfl
+
+/-- `rdsystem_from_dict(rdsystem_to_dict(s))` for every system with explicit state and chemostat map:
+units systems at four levels (system, network, species/reactions, space and its nodes/edges) are all kept -/
+theorem system_roundtrip (parent : Sys) (base : Option String) (fs : FS) (o : L2) (hwf : SystemWF o) :
+    systemFromDict parent base fs (systemToDict o) = .ok (rp2 o) := by
+  obtain ⟨us, net, sp, state, chem, rfl, hus, hnet, hsp, hsv, hsd, henv⟩ := hwf
+  obtain ⟨kvn, hkvn⟩ : ∃ kv, networkToDict net = .obj kv := ⟨_, toDictG_eq _ _ _ _ _⟩
+  obtain ⟨kvs, hkvs⟩ := spaceToDict_obj sp hsp
+  have hwn : writeL1 net = .obj kvn := by rw [writeL1_network net hnet, hkvn]
+  have hws : writeL1 sp = .obj kvs := by rw [writeL1_space sp hsp, hkvs]
+  let flds : List Field := [⟨"network", "network", .childOrPath "network", none⟩, ⟨"space", "space", .childOrPath "space", none⟩,
+     ⟨"state", "state", .uarr Dim.quantity, some .null⟩, ⟨"chemostats", "chemostats", .intsOrPath, some .null⟩]
+  let g : Field → Val L1 := fun f =>
+    if f.param == "network" then .child (rp1 net) else if f.param == "space" then .child (rp1 sp)
+    else if f.param == "state" then .arr (reparseArr state) else .ints chem
+  have hks : (writtenKV flds [] none writeL1 (systemObj us net sp state chem)).map (·.1) =
+      ["units", "network", "space", "state", "chemostats"] := rfl
+  have hgen := generic_roundtrip DictKeys.system flds [] none parent base fs (level1Child fs) writeL1
+    (systemObj us net sp state chem) g ["units", "network", "space", "state", "chemostats"] hks
+    (by decide +kernel) (by decide +kernel) (by decide +kernel)
+    (readUnits_write parent _ us hus) (by
+      intro f hfm
+      simp only [flds, List.mem_cons, List.not_mem_nil, or_false] at hfm
+      rcases hfm with rfl | rfl | rfl | rfl
+      · show readKind _ _ (.childOrPath "network") (writeL1 net) = _
+        rw [hwn, readKind_childOrPath_obj]
+        show (level1Child fs "network" us base (.obj kvn)).map Val.child = _
+        rw [level1Child_network, ← hkvn, network_roundtrip us base fs net hnet]; rfl
+      · show readKind _ _ (.childOrPath "space") (writeL1 sp) = _
+        rw [hws, readKind_childOrPath_obj]
+        show (level1Child fs "space" us base (.obj kvs)).map Val.child = _
+        rw [level1Child_space, ← hkvs, space_roundtrip us base fs sp hsp]; rfl
+      · exact readKind_uarr _ _ writeL1 state Dim.quantity (printable_of_valid _ hsv) hsd
+      · exact readKind_intsOrPath _ _ writeL1 chem)
+  unfold systemFromDict systemToDict
+  rw [systemFields_eq]
+  have hraw : systemFromDictRaw parent base fs (toDictG flds [] none writeL1 (systemObj us net sp state chem)) =
+      fromDictG DictKeys.system systemFields parent base fs (level1Child fs)
+        (toDictG flds [] none writeL1 (systemObj us net sp state chem)) := by
+    rw [toDictG_eq]
+    have hpk := processKeys_canonical' DictKeys.system.aliases
+      (writtenKV flds [] none writeL1 (systemObj us net sp state chem)) _ hks
+      (by decide +kernel) (by decide +kernel) (by decide +kernel)
+    have hl : (writtenKV flds [] none writeL1 (systemObj us net sp state chem)).lookup "space" = some (.obj kvs) := by
+      rw [← hws]; rfl
+    exact systemFromDictRaw_present parent base fs _ kvs hpk hl
+  rw [hraw, systemFields_eq, hgen]
+  -- the environment-index check of the RDSystem constructor on the reloaded object
+  show finishSystem _ = _
+  have hfin : finishSystem ([("units_system", .sys us), ("network", .child (rp1 net)), ("space", .child (rp1 sp)),
+      ("state", .arr (reparseArr state)), ("chemostats", .ints chem)] : L2) =
+      .ok [("units_system", .sys us), ("network", .child (rp1 net)), ("space", .child (rp1 sp)),
+      ("state", .arr (reparseArr state)), ("chemostats", .ints chem)] := by
+    have h1 : nEnvOf (rp1 net) = nEnvOf net := nEnvOf_reparse _ net
+    have h2 : cellEnvsOf (rp1 sp) = cellEnvsOf sp := cellEnvsOf_reparse sp
+    have hany : (cellEnvsOf sp).any (fun e => decide (e ≥ (nEnvOf net : Int))) = false := by
+      apply List.any_eq_false.2
+      intro e he
+      have := henv e he
+      simp only [decide_eq_true_eq]; omega
+    show (if (cellEnvsOf (rp1 sp)).any (fun e => decide (e ≥ (nEnvOf (rp1 net) : Int))) then _ else _) = _
+    rw [h1, h2, hany]; rfl
+  exact hfin
+
 end Strengths.C12
